@@ -9,6 +9,16 @@ from props import lifecycle as L
 
 OKV = {'Ok', 'Some', 'Continue'}
 ERRV = {'Err', 'None', 'Break'}
+PEEL_OK = re.compile(r'(Try>?::branch|Result::map_err)$')     # (plumbing that cannot change the Ok payload)
+
+
+def peel_ok(v):
+    v = strip(v)
+    while v[0] == 'call' and PEEL_OK.search(v[1]) and v[2]:
+        v = strip(v[2][0])
+    return v
+
+
 PEEL = re.compile(r'(Try>?::branch|Result::map_err|Option::ok_or_else|Option::ok_or|Result::map|Option::map|Option::as_ref|Result::as_ref)$')
 
 
@@ -638,7 +648,8 @@ def loop_scan(chk, F, r_scan, r_pure, cfg, fn, any_paths, root_pred):
     for p in any_paths:
         evs = [e for e in p.effects if e.kind == 'call' and re.search(r'Iterator>?::next$|^core::ops::Fn::call$', e.data[1])]
         other = [e.data[1] for e in p.effects if e.kind == 'call' and not re.search(r'Iterator>?::next$|^core::ops::Fn::call$', e.data[1]) and not LOOP_SRC_OK.search(e.data[1])
-                 and not re.search(r'DynCtx::map_pattern_error$', e.data[1])]
+                 and not re.search(r'DynCtx::map_pattern_error$', e.data[1]) and not PEEL_OK.search(e.data[1]) and not re.search(r'FromResidual<.*>::from_residual$', e.data[1])]
+        # (`matcher(..).map_err(to_error)?`: the ?-plumbing only hands the matcher's own result on; what the error closure calls is in the effects as well)
         chk.ob(r_pure, 'the unordered scan calls nothing but the iterator, the matcher and (on a matcher error) the error mapper', not other, config=cfg, fn=fn, site='loop-scan:calls',
                what='scan calls %s' % sorted(set(other)), found=sorted(set(other)))
         cur = None      # the element of the current iteration (value of the latest `next`)
@@ -673,10 +684,11 @@ def loop_scan(chk, F, r_scan, r_pure, cfg, fn, any_paths, root_pred):
                 res = None
                 for d in p.decisions:
                     v = strip(d.value)
-                    if v[0] == 'discr' and strip(v[1]) == val:
-                        res = 'err' if decision_variant(F, d) == 'Err' else res
+                    if v[0] == 'discr' and (strip(v[1]) == val or peel_ok(v[1]) == val):
+                        res = 'err' if decision_variant(F, d) in ERRV else res
                     inner, t = L.truth_of(d)
-                    if t is not None and inner[0] == 'field' and inner[2] == '0' and strip(inner[1])[0] == 'as' and strip(strip(inner[1])[1]) == val and res != 'err':
+                    if t is not None and inner[0] == 'field' and inner[2] == '0' and strip(inner[1])[0] == 'as' and strip(inner[1])[2] in OKV and \
+                            (strip(strip(inner[1])[1]) == val or peel_ok(strip(inner[1])[1]) == val) and res != 'err':
                         res = 'accepted' if t else 'rejected'
                 if res is None:
                     ok, why = False, 'the decision taken on the matcher result is not recognised'
@@ -897,7 +909,7 @@ def slot_lookup_loop(chk, F, rule, cfg, fn, own):
             for key, accepted in first_iter.items():
                 feasible = True
                 for inner, t in key:
-                    if is_call(inner, r'ops::Range(<Idx>)?::contains$|RangeBounds>?::contains$') and field_path(strip(inner)[2][0])[1][-1:] == ['ordered_call_index_range']:
+                    if contains_owns_slot(inner):
                         val = d1 >= 0 and d2 < 0
                     else:
                         cmp = as_comparison(inner)
@@ -946,8 +958,7 @@ def slot_predicate(chk, F, rule, cfg, cf):
                     o = p.outcome[1] if p.outcome[0] == 'return' else None
                     if o is not None and strip(o)[0] == 'c':
                         outs.add(bool(strip(o)[1]))
-                    elif o is not None and is_call(o, r'ops::Range(<Idx>)?::contains$|RangeBounds>?::contains$') and \
-                            field_path(strip(o)[2][0])[1][-1:] == ['ordered_call_index_range'] and ('ordered_call_index' in show(strip(o)[2][1]) or field_path(strip(o)[2][1])[0] == ('param', 0, 1)):
+                    elif o is not None and contains_owns_slot(o):
                         # std contract: Range::contains(&r, &i) == (r.start <= i && i < r.end)
                         outs.add(d1 >= 0 and d2 < 0)
                     elif o is not None:
@@ -968,7 +979,26 @@ def slot_predicate(chk, F, rule, cfg, cf):
                what='slot predicate boundary (i-start=%+d,i-end=%+d) -> %s' % (d1, d2, sorted(outs)), found=sorted(outs), expected=[want])
 
 
-def eval_slot_cmp(cmp, d1, d2):
+def contains_owns_slot(o):
+    """`range.contains(&x)` on the pattern's own slot range with x = the call's position itself (std contract: start <= x < end)"""
+    o = strip(o)
+    if not (is_call(o, r'ops::Range(<Idx>)?::contains$|RangeBounds>?::contains$') and len(o[2]) == 2):
+        return False
+    if field_path(strip(o[2][0]))[1][-1:] != ['ordered_call_index_range']:
+        return False
+    a = strip(o[2][1])
+    if a[0] == 'ref' and len(a) > 3:
+        a = strip(a[3])
+    elif a[0] == 'ref':
+        return False
+    return slot_sym(a) == ('i', 0)
+
+
+def slot_sym(v):
+    return eval_slot_cmp(('Eq', v, v), 0, 0, want_sym=True)
+
+
+def eval_slot_cmp(cmp, d1, d2, want_sym=False):
     """truth of a comparison between the call index i (closure upvar) and range.start / range.end"""
     op, l, r = cmp
 
@@ -996,6 +1026,8 @@ def eval_slot_cmp(cmp, d1, d2):
             return ('i', lin[1])
         return None
     a, b = sym(l), sym(r)
+    if want_sym:
+        return a
     if a is None or b is None:
         return None
     # choose concrete values: i = 10, start = 10 - d1, end = 10 - d2
